@@ -39,7 +39,14 @@ def _expand(chunk):
             rep.add('act:' + str(a[0]))
             try:
                 mach.apply(st, a)
-                mach.invariant(st)
+                try:
+                    mach.invariant(st)
+                except Violation:
+                    raise
+                except Exception as e:  # noqa
+                    # the independent checker itself fell over: the state is malformed
+                    raise Violation('the state is malformed (invariant checker raised %s)'
+                                    % type(e).__name__, error=str(e)[:160])
             except Violation as v:
                 rep.violation(mach.signature(v, a), v.what,
                               dict(machine=mach.name, seed=seed, trace=list(trace) + [a]),
@@ -63,6 +70,9 @@ def _expand(chunk):
     return out, rep
 
 
+_expand.returns_report = False
+
+
 def _replay(chunk):
     """Worker: re-reach states by replaying traces from the public constructor."""
     mach = _machine
@@ -80,6 +90,9 @@ def _replay(chunk):
             bad.append((seed, trace, 'replayed state differs'))
         n += 1
     return n, bad
+
+
+_replay.returns_report = False
 
 
 def _chunks(lst, k):
